@@ -9,7 +9,7 @@
    `tried_of h` are the bulks h acknowledges / interrupts; `fetch`/`search` read through the index
    rebuilt by the last start. *)
 From Coq Require Import List NArith.
-From C01 Require Import Model Proofs Proofs2 Proofs4 Proofs6 CaseDefs Witness.
+From C01 Require Import Model Proofs Proofs2 Proofs4 Proofs6 Proofs7 CaseDefs Witness.
 Import ListNotations.
 
 (* The store always comes back up: no history makes a start-up (or anything else) fail — replay
@@ -76,6 +76,35 @@ Theorem C01_replay_blocks :
 Proof. exact replay_loop_blocks. Qed.
 Print Assumptions C01_replay_blocks.
 
+(* Meta order = docs order: in EVERY reachable state (running or crashed) the i-th meta block in
+   file order records (Ext2) the docs offset that Replay derives for it, the sum of the Ext1 of the
+   blocks before it. `meta_describes_docs` is the executable statement; the correspondence run
+   evaluates the same `ext_chain_ok` on the (Ext1, Ext2) pairs read from the real .meta files. *)
+Theorem C01_meta_order_invariant :
+  forall dec_m dec_d h s,
+    wf_hist dec_m dec_d h -> run dec_m h = Ok s -> meta_describes_docs (meta (s_disk s)) = true.
+Proof. exact meta_order_invariant. Qed.
+Print Assumptions C01_meta_order_invariant.
+
+(* Concurrent bulks: every interleaving that the writer's mutex allows (whole units "docs block,
+   then the meta block describing it", in any lock order, any group cbs, from any consistent files)
+   produces exactly the files of the sequence of atomic bulk steps in lock order — so concurrent
+   acknowledged bulks are covered by the history theorems above as consecutive HBulk steps — and
+   keeps meta order = docs order. *)
+Theorem C01_locked_units_sequential :
+  forall cbs order bs pend,
+    (exists pend',
+      run_events cbs (WSt (dfile bs) (mfile bs 0) (length (dfile bs)) (length (mfile bs 0)) pend)
+                 (locked order)
+      = let bs' := bs ++ map (fun i => nth i cbs no_bulk) order in
+        WSt (dfile bs') (mfile bs' 0) (length (dfile bs')) (length (mfile bs' 0)) pend') /\
+    meta_describes_docs
+      (w_meta (run_events cbs
+         (WSt (dfile bs) (mfile bs 0) (length (dfile bs)) (length (mfile bs 0)) pend)
+         (locked order))) = true.
+Proof. intros. split; [apply locked_units | apply locked_units_meta_order]. Qed.
+Print Assumptions C01_locked_units_sequential.
+
 (* lem:hdr_prefix_eof — a strict prefix of a block, wherever it starts, is reported as EOF *)
 Theorem C01_hdr_prefix_eof :
   forall pre pay raw e1 e2 c, c < length (block pay raw e1 e2) ->
@@ -120,3 +149,17 @@ Qed.
 Example C01_v0_refuted_torn_meta :
   exists h, wf_hist wdm wdd h /\ run_v0 wdm h = Panic.
 Proof. exists (w_hist 10). split; [apply w_wf | exact w_v0_torn]. Qed.
+
+(* ---------- the locked unit is necessary: an interleaving that splits it (A reserves its docs
+   offset first, B's meta block lands first; docs blocks of different size) breaks the invariant,
+   and after the next start B's ID is served with A's bytes; the locked interleaving is fine ---------- *)
+Example C01_split_unit_refuted :
+  meta_describes_docs (w_meta w_split) = false /\
+  fetch_after_restart w_split (d_id wd1) = Some (Body (d_body wd4)) /\
+  d_body wd4 <> d_body wd1 /\
+  meta_describes_docs (w_meta w_locked) = true /\
+  fetch_after_restart w_locked (d_id wd1) = Some (Body (d_body wd1)).
+Proof.
+  destruct w_split_breaks as (A & B). destruct w_locked_fine as (C & D & _).
+  split; [exact A |]. split; [exact B |]. split; [discriminate |]. split; [exact C | exact D].
+Qed.
